@@ -54,8 +54,9 @@ FAMILIES = {
         rule='random forwarding digraphs (incl. self loops, several wildcard forwards per bus) with ordinary handlers and concurrent traffic; '
              'non-trivial: some forwarding handler dispatches'),
     'C08': dict(
-        gens=[('core', dict(nb=(2, 3), p_forward=0.35, p_wild=0.3), 1.0)],
-        facets=CORE + ['results', 'signal', 'lineage'],
+        gens=[('core', dict(nb=(2, 3), p_forward=0.35, p_wild=0.3), 0.5), ('core', dict(p_timeout=0.5, proglen=(1, 6)), 0.25),
+              ('chain', dict(p_timeout=0.8, p_await=0.6), 0.25)],
+        facets=CORE + ['results', 'signal', 'lineage', 'timeout'],
         rule='forwarding chains/diamonds with slow downstream handlers, external awaits; every state after first completion is an observation point; '
              'non-trivial: an event completes and at least 5 labels follow'),
     'C09': dict(
@@ -110,7 +111,7 @@ BUDGET = {'quick': 480, 'thorough': 12000}
 def gen_backlog(rng, **_):
     """a handler (or main code) dispatching bursts around the queue / capacity limits"""
     nb = rng.randint(1, 2)
-    maxh = rng.choice([50, 200, None, 120])
+    maxh = rng.choice([50, 200, None, 120, 1, 5, 20, 49, 30])
     sc = {'buses': [{'parallel': False, 'maxh': maxh, 'wal': False} for _ in range(nb)],
           'types': {n: {'timeout': None} for n in gen.RANK}, 'handlers': [], 'tasks': []}
     n = rng.choice([45, 49, 50, 51, 52, 60, 99, 100, 101, 110])
